@@ -363,12 +363,12 @@ def rule_option_files_reach(ctx, rep):
     )
     cli = ctx.prog.func("codemodder.cli.parse_args")
     dests = []
-    for c in walk_no_nested(cli.node):
-        if isinstance(c, ast.Call) and last_attr(c.func) == "add_argument" and c.args and isinstance(c.args[0], ast.Constant) and isinstance(c.args[0].value, str):
-            flag = c.args[0].value
+    from ..cli_model import options as cli_options
+
+    for o in cli_options(ctx):
+        for flag in o.flags:
             if flag.startswith("--") and (flag.endswith("-json") or flag == "--sarif"):
-                d = next((k.value.value for k in c.keywords if k.arg == "dest" and isinstance(k.value, ast.Constant)), flag[2:].replace("-", "_"))
-                dests.append(d)
+                dests.append(o.dest)
     if len(dests) < 4:
         raise AnalysisError(f"only {len(dests)} result-file options found in the CLI")
     mod = ctx.prog.module("codemodder.codemodder")
